@@ -26,28 +26,29 @@ using namespace tbox::network;
 
 namespace {
 
-// ops:  req <dt_ms> <domain>        cancel <dt_ms> <k>        reply <dt_ms> <k> <kind> <arg> <nrec>
+// ops:  req <dt_ms> <domain> <retry_on_timeout>        cancel <dt_ms> <k>        reply <dt_ms> <k> <kind> <arg> <nrec>
 // kinds: 0 A records (compressed names) 1 CNAME+A 2 unknown type+A 3 rcode3 4 rcode2 5 rcode5 6 rcode1
 //        7 truncated at arg 8 inflated an_count 9 pointer loop 10 forward pointer 11 pointer outside 12 random bytes (right id)
 //        13 wrong id 14 query instead of response 15 tiny datagram (arg bytes, 0..3) 16 chain of pointers
+//        17 a label followed by a pointer back to that label (a loop that every single pointer check 'target lies before me' accepts)
 void generate(sim::Rng &r, uint64_t seed, const std::string &tier, sim::Plan &p) {
   bool thorough = tier == "thorough";
   p.cfg["backend"] = r.below(2);
   p.cfg["nsrv"] = r.range(1, 3);
   int nreq = (int)r.range(1, thorough ? 6 : 4);
   int n = (int)r.range(1, thorough ? 20 : 10);
-  { sim::Op op; op.kind = "req"; op.a = {0, r.range(0, 5)}; p.ops.push_back(op); }
+  { sim::Op op; op.kind = "req"; op.a = {0, r.range(0, 5), r.chance(300) ? 1 : 0}; p.ops.push_back(op); }
   int made = 1;
   for (int i = 0; i < n; ++i) {
     sim::Op op;
     unsigned x = (unsigned)r.below(100);
     long dt = r.chance(500) ? r.range(0, 5) : r.chance(700) ? r.range(5, 900) : r.range(900, 5200);
-    if (x < 15 && made < nreq) { op.kind = "req"; op.a = {dt, r.range(0, 5)}; ++made; }
+    if (x < 15 && made < nreq) { op.kind = "req"; op.a = {dt, r.range(0, 5), r.chance(300) ? 1 : 0}; ++made; }
     else if (x < 22) { op.kind = "cancel"; op.a = {dt, (long)r.below((uint64_t)made)}; }
     else {
       long kind;
       unsigned y = (unsigned)r.below(100);
-      if (y < 30) kind = r.range(0, 2); else if (y < 42) kind = r.range(3, 6); else kind = r.range(7, 16);
+      if (y < 30) kind = r.range(0, 2); else if (y < 42) kind = r.range(3, 6); else kind = r.range(7, 17);
       op.kind = "reply"; op.a = {dt, (long)r.below((uint64_t)made), kind, (long)r.below(80), r.range(0, 4)};
     }
     p.ops.push_back(op);
@@ -126,6 +127,7 @@ std::vector<uint8_t> craft(const Lookup &l, long kind, long arg, long nrec, uint
   put16(b, 1); put16(b, 1);
   auto name_ptr = [&](size_t off) { b.push_back((uint8_t)(0xc0 | (off >> 8))); b.push_back((uint8_t)off); };
   if (kind == 9) { size_t here = b.size(); name_ptr(here); put16(b, 1); put16(b, 1); put32(b, serial); put16(b, 4); b.push_back(1); b.push_back(2); b.push_back(3); b.push_back(4); return b; }
+  if (kind == 17) { size_t here = b.size(); b.push_back(1); b.push_back('a'); name_ptr(here); put16(b, 1); put16(b, 1); put32(b, serial); put16(b, 4); b.push_back(6); b.push_back(6); b.push_back(6); b.push_back(6); return b; }
   if (kind == 10) { name_ptr(b.size() + 20); put16(b, 1); put16(b, 1); put32(b, serial); put16(b, 4); b.push_back(9); b.push_back(9); b.push_back(9); b.push_back(9); for (int i = 0; i < 12; ++i) b.push_back(0); return b; }
   if (kind == 11) { name_ptr(0x3f00 + (size_t)arg); put16(b, 1); put16(b, 1); put32(b, serial); put16(b, 4); b.push_back(8); b.push_back(8); b.push_back(8); b.push_back(8); return b; }
   if (kind == 16) {
@@ -214,6 +216,25 @@ void send_reply(const std::vector<uint8_t> &b) {
   if (W.client_fd >= 0) { struct pollfd p; p.fd = W.client_fd; p.events = POLLIN; for (int i = 0; i < 50; ++i) { if (sim::raw::poll1(W.client_fd, POLLIN) & POLLIN) break; usleep(100); } (void)p; }
 }
 
+// start a lookup; `retries` > 0: when it times out the same name is looked up again from inside the time-out callback
+void issue_lookup(int domain, int retries) {
+  size_t idx = W.lk.size();
+  Lookup l; l.domain = DOMAINS[domain]; l.made = true; l.t_req = sim::now_ns();
+  W.lk.push_back(l);
+  uint16_t id = W.dns->request(DomainName(l.domain), [idx, domain, retries](const DnsRequest::Result &res) {
+    {
+      Lookup &L = W.lk[idx];
+      ++L.callbacks; L.t_cb = sim::now_ns(); L.status = (int)res.status;
+      for (auto &a : res.a_vec) L.a.push_back({a.ttl, a.ip.toString()});
+      for (auto &c : res.cname_vec) L.cname.push_back({c.ttl, c.cname.toString()});
+    }
+    sim::trace("lookup %zu callback status=%d a=%zu cname=%zu", idx, (int)res.status, res.a_vec.size(), res.cname_vec.size());
+    if (res.status == DnsRequest::Result::Status::kTimeout && retries > 0 && W.lk.size() < 12) { sim::probe("retry_from_timeout_callback"); issue_lookup(domain, retries - 1); }
+  });
+  W.lk[idx].id = id;
+  sim::relevant();
+}
+
 void execute(const sim::Plan &plan) {
   sim::start(plan);
   sim::name_thread("loop");
@@ -239,20 +260,7 @@ void execute(const sim::Plan &plan) {
     t += std::max(0L, std::min(8000L, op->arg(0))) * 1000000;
     if (op->kind == "req") {
       tl.at(t, [op] {
-        W.loop->runInLoop([op] {
-          size_t idx = W.lk.size();
-          Lookup l; l.domain = DOMAINS[((op->arg(1) % 6) + 6) % 6]; l.made = true; l.t_req = sim::now_ns();
-          W.lk.push_back(l);
-          uint16_t id = W.dns->request(DomainName(l.domain), [idx](const DnsRequest::Result &res) {
-            Lookup &L = W.lk[idx];
-            ++L.callbacks; L.t_cb = sim::now_ns(); L.status = (int)res.status;
-            for (auto &a : res.a_vec) L.a.push_back({a.ttl, a.ip.toString()});
-            for (auto &c : res.cname_vec) L.cname.push_back({c.ttl, c.cname.toString()});
-            sim::trace("lookup %zu callback status=%d a=%zu cname=%zu", idx, (int)res.status, res.a_vec.size(), res.cname_vec.size());
-          });
-          W.lk[idx].id = id;
-          sim::relevant();
-        }, "c15.req");
+        W.loop->runInLoop([op] { issue_lookup((int)(((op->arg(1) % 6) + 6) % 6), op->arg(2) != 0 ? 1 : 0); }, "c15.req");
       }, (int)i);
     } else if (op->kind == "cancel") {
       tl.at(t, [op] {
@@ -268,7 +276,7 @@ void execute(const sim::Plan &plan) {
         if (W.lk.empty()) return;
         Lookup &L = W.lk[(size_t)(std::max(0L, op->arg(1)) % (long)W.lk.size())];
         uint32_t serial = ++W.serial;
-        std::vector<uint8_t> b = craft(L, ((op->arg(2) % 17) + 17) % 17, std::max(0L, op->arg(3)), op->arg(4), serial);
+        std::vector<uint8_t> b = craft(L, ((op->arg(2) % 18) + 18) % 18, std::max(0L, op->arg(3)), op->arg(4), serial);
         W.sent.push_back(Sent{serial, b});
         sim::trace("reply kind=%ld serial=%u len=%zu", op->arg(2), serial, b.size());
         sim::relevant();
@@ -276,7 +284,7 @@ void execute(const sim::Plan &plan) {
       }, (int)i);
     }
   }
-  t += 6500 * 1000000LL;     // every lookup has timed out by then
+  t += 12500 * 1000000LL;     // every lookup, and a retry started from a time-out callback, has timed out by then
   tl.at(t, [] { W.loop->runInLoop([] { W.loop->exitLoop(); }, "c15.exit"); });
   drv::Timeline *ptl = &tl;
   sim::set_prewait_hook([ptl](uint64_t pass) -> sim::HookResult {
@@ -302,7 +310,7 @@ void execute(const sim::Plan &plan) {
       if (L.callbacks && L.t_cb >= L.t_cancel) sim::violation("C15/callback-after-cancel", sim::fmt("lookup #%zu: callback invoked after cancel()", i));
       continue;
     }
-    if (L.callbacks != 1) { sim::violation(L.callbacks == 0 ? "C15/lookup-never-completes" : "C15/lookup-completes-twice", sim::fmt("lookup #%zu: callback invoked %d times (6.5 s after the last operation)", i, L.callbacks)); continue; }
+    if (L.callbacks != 1) { sim::violation(L.callbacks == 0 ? "C15/lookup-never-completes" : "C15/lookup-completes-twice", sim::fmt("lookup #%zu: callback invoked %d times (12.5 s after the last operation)", i, L.callbacks)); continue; }
     if (L.status == (int)DnsRequest::Result::Status::kTimeout) {
       int64_t d = L.t_cb - L.t_req;
       if (d < 4 * S || d > 5 * S + S / 1000) sim::violation("C15/timeout-at-wrong-time", sim::fmt("lookup #%zu timed out %.3f s after the request (expected within [4 s, 5 s])", i, d / 1e9));
